@@ -90,6 +90,7 @@ def fibre(
     nmatch=0,
     match_reverse=None,
     front_only=False,
+    back_only=False,
     ta_on_ref=False,
     power_loss=0.02,
 ):
@@ -103,6 +104,13 @@ def fibre(
         rest = nx - nfront
         k1 = nfront + rest // 3
         segs += [(None, nfront, k1 - 1), (None, k1, nx - 1)]
+    k_back = None
+    if back_only and segs is None:
+        # mirror image: the splice lies UPSTREAM of all reference sections; two free stretches in front of them, one on each side of the splice
+        nback = max(int(0.5 * nx), 2 * (2 * nbath + 1))
+        nfree = nx - nback
+        k_back = nfree // 2
+        segs = [(None, 0, k_back - 1), (None, k_back, nfree - 1)] + [(b, a + nfree, e + nfree) for b, a, e in layout(rng, nback, nbath, 1)]
     segs = segs or layout(rng, nx, nbath, nstretch_max)
     bath_T = {b: float(rng.uniform(2.0, 45.0)) + rng.normal(0, 0.8, nt) for b in range(nbath)}
     T = np.empty((nx, nt))
@@ -119,7 +127,13 @@ def fibre(
     for _ in range(nmatch):
         if len(free) < 2:
             break
-        if front_only:
+        if back_only and k_back is not None:
+            up = [k for k, (a, e) in enumerate(free) if e < k_back]
+            dn = [k for k, (a, e) in enumerate(free) if a >= k_back and e <= segs[1][2]]
+            if not up or not dn:
+                break
+            i1, i2 = int(rng.choice(up)), int(rng.choice(dn))
+        elif front_only:
             up = [k for k, (a, e) in enumerate(free) if e < segs[-1][1]]
             dn = [k for k, (a, e) in enumerate(free) if a >= segs[-1][1]]
             if not up or not dn:
@@ -145,6 +159,10 @@ def fibre(
     # splices: placed so that at least two reference locations lie on either side (otherwise the loss is not determinable)
     ref_ix = np.array(sorted(i for b, a, e in segs if b is not None for i in range(a, e + 1)))
     tas = []
+    if back_only and k_back is not None:
+        on = bool(rng.random() < 0.5) if ta_on_grid is None else bool(ta_on_grid)
+        tas = [float(x[k_back]) if on else float((x[k_back - 1] + x[k_back]) / 2)] if nta else []
+        nta = 0
     if front_only:
         a_last, e_last = segs[-1][1], segs[-1][2]
         j = a_last - 1
